@@ -61,6 +61,8 @@ ANISO_CAP = 2e-2
 #   (slowest cases converge algebraically, (Nmax/(Nmax+2))^2 = 0.44); a residual that stagnates does not come from the quadrature.
 #   RHO = 1.4 x the largest ratio seen
 RHO = 0.75
+#   pole-cutoff response: pmaxerror 1e-8 -> 1e-12 lowers a cutoff-limited residual by 7 .. 13 (measured 2.78e-5 -> 2.09e-6); require at least 2
+CUTOFF_RHO = 0.5
 #   sheared (non-reduced, noreduce=True) description vs the reduced description of the same crystal and rates, both on the refined
 #   mesh Nmax+2 = 6: worst-residual ratio measured 0.5 .. 6.6 (fcc, bcc x demo shears, 9 data sets; absolute values 1e-10 .. 5e-9, far
 #   below the 1e-6 floor, which is what decides) -> 4 x the largest ratio seen
@@ -515,7 +517,7 @@ def run(ck):
     # history tier: one calculator object reused across several rate sets (named lattices with >= 2 jump types)
     plan += [("hist2", 4)] * ck.n(4, 30) + [("hist3", 2)] * ck.n(2, 16)
     terms, meta = [], []
-    stats = {"ratio_res_conv": [], "K_far": [], "pair_rel": [], "conv": [], "res": [], "history_rel": [], "reload_rel": [], "anisotropy": [], "ratio_refined": [], "ratio_sheared": [], "cross_description": []}
+    stats = {"ratio_res_conv": [], "K_far": [], "pair_rel": [], "conv": [], "res": [], "history_rel": [], "reload_rel": [], "anisotropy": [], "cutoff_limited": [], "ratio_refined": [], "ratio_sheared": [], "cross_description": []}
     skipped = {"no-network": 0, "sublattice-network": 0}
     nsample = 0
     # sheared tier: a named crystal in its reduced description and in a non-reduced (unimodular shear, noreduce=True) description
@@ -611,7 +613,21 @@ def run(ck):
         # convergence: the same equations on the refined mesh
         worst2 = float(np.abs(ev["res2"]).max())
         if worst > ABS_FLOOR: stats["ratio_refined"].append(worst2 / worst)
-        if worst2 > max(ABS_FLOOR, RHO * worst):
+        stagnates = worst2 > max(ABS_FLOOR, RHO * worst)
+        if stagnates:
+            # the calculator has a SECOND integration-accuracy parameter, the pole cutoff (SetRates(pmaxerror=1e-8)): its error floor
+            # can exceed the mesh error (2-D, 2 sites, point group 2: floor 2.6e-5 for every Nmax 6..16, 2.1e-6 at pmaxerror 1e-12).
+            # A residual that stops responding to the mesh must then respond to the cutoff; only if it responds to neither it is
+            # no integration error.
+            from onsager import GFcalc
+            g3 = GFcalc.GFCrystalcalc(case.crys, case.chem, case.sl, case.jn, Nmax=Nmax + 2)
+            g3.SetRates(*case.data, pmaxerror=1e-12)
+            tab3 = {key: float(g3(key[0], key[1], case.dx(*key))) for key in ev["tab"]}
+            worst3 = float(np.abs(residuals(case, tab3, ev["pts"])).max())
+            stats["cutoff_limited"].append(worst3 / worst2)
+            stagnates = worst3 > max(ABS_FLOOR, CUTOFF_RHO * worst2)
+            if not stagnates: skipped["residual-limited-by-pole-cutoff"] = skipped.get("residual-limited-by-pole-cutoff", 0) + 1
+        if stagnates:
             k = int(np.argmax(np.abs(ev["res2"])))
             ck.violation("diffusion equation residual does not converge under k-mesh refinement: %.3g at Nmax=%d, %.3g at Nmax=%d (point %s; "
                          "quadrature error decays at least like (Nmax/(Nmax+2))^2, limit %.2f)" % (worst, Nmax, worst2, Nmax + 2, ev["pts"][k], RHO),
